@@ -99,6 +99,12 @@ claim('C13', 'differential execution: assembled matrices of the real PanelAssemb
       'each stiffness / mass contribution symmetric and PSD.',
       'documented block order (skin, BladeStiff2D flanges, TStiff2D base+flange, each in insertion order); PSD judged against eps*||K||', '4/C13')
 
+claim('C14', 'differential execution of equivalent descriptions: pairs of real executions whose matrices or eigenvalues must coincide or be related by a known factor',
+      'Six relations in rotation over random inputs: conical panel at alpha=0 vs cylindrical panel (k0,kG0,kM, sub-intervals); cylindrical panel tending to the plate as r/b grows 1e2..1e7 (bounded restatement: 10x..100x per decade once '
+      'r/b>=1e5, within 1e-4 at 1e7; kG0 and kM radius independent); w-only plate vs the w block of the full plate (k0,kG0,kM,kA,cA); numerically integrated k0 at c=0 vs analytic k0; x<->y exchange (buckling multipliers and frequencies); '
+      'similarity scaling of lengths, moduli and density (line loads x e*s, frequencies x sqrt(e/q)/s).',
+      'eigenvalues by scipy.linalg.eigh on active sub-matrices; "tends to" restated as a decade-wise rate and a bound at r/b=1e7', '4/C14')
+
 ALL = ['C%02d' % i for i in range(1, 21)]
 PENDING_REASON = 'check not built yet in this round (runtime-monitoring plan in DESIGN.md section 4); will be claimed once its monitor runs silent on the unchanged tree'
 
